@@ -1558,10 +1558,11 @@ pub fn replay(case: &Value, ctx: &mut Ctx) -> bool {
             ctx,
         ),
         "c10_linear" => o2::c10_linear(&input, &[case["ci"].as_u64().unwrap_or(2) as u8], &c, ctx),
-        "c11" => o2::c11(
+        "c11" => o2::c11_dense(
             &input,
             &[case["w1"].as_u64().unwrap_or(30) as u32, case["w2"].as_u64().unwrap_or(120) as u32],
             &c,
+            None,
             ctx,
         ),
         "c14" => o::c14(
